@@ -233,6 +233,16 @@ class SDy:
         up = z3.Or(r > h, z3.And(r == h, q % 2 == 1))
         return SDy(z3.simplify(q + z3.If(up, 1, 0)), 0, max(self.nb + self.e, 0) + 2, self.dtype, chk=False)
 
+    def round_dir(self, mode):
+        """floor / ceil / trunc, exact."""
+        if self.e >= 0:
+            return self
+        d = 1 << (-self.e)
+        fl = self.m / d                 # z3 Int div by a positive constant: floor
+        ce = -((-self.m) / d)
+        q = {"floor": fl, "ceil": ce, "trunc": z3.If(self.m >= 0, fl, ce)}[mode]
+        return SDy(z3.simplify(q), 0, max(self.nb + self.e, 0) + 2, self.dtype, chk=False)
+
     def clip(self, lo, hi):
         lo, hi = SDy.of(lo), SDy.of(hi)
         e = min(self.e, lo.e, hi.e)
@@ -783,6 +793,9 @@ class SArray:
         elif name == "rint":
             x = inputs[0]
             res = SArray(_map(_rint_elem, x.a), x.dtype)
+        elif name in ("floor", "ceil", "trunc"):
+            x = inputs[0]
+            res = SArray(_map(lambda v: _round_dir_elem(v, name), x.a), x.dtype)
         else:
             raise OutsideModel(f"ufunc {name}")
         if out is not None:
@@ -847,6 +860,14 @@ def _map(f, a):
     for idx in real_np.ndindex(*a.shape):
         out[idx] = f(a[idx])
     return out
+
+
+def _round_dir_elem(x, mode):
+    if isinstance(x, SDy):
+        return x.round_dir(mode)
+    if isinstance(x, (SBV, SIV)):
+        return x
+    raise OutsideModel(f"{mode} of unsupported element")
 
 
 def _rint_elem(x):
@@ -1526,9 +1547,18 @@ class NPProxy:
             return real_np.frombuffer(buf.concrete(), dtype, count, offset)
         dt = real_np.dtype(dtype)
         n = dt.itemsize
+        if offset < 0 or offset > len(buf.bs):
+            raise ValueError("offset must be non-negative and no greater than buffer length")
         bs = buf.bs[offset:]
-        if len(bs) % n:
-            raise ValueError("buffer size must be a multiple of element size")
+        if not isinstance(count, builtins.int):
+            count = operator.index(count)
+        if count < 0:
+            if len(bs) % n:
+                raise ValueError("buffer size must be a multiple of element size")
+        else:
+            if count * n > len(bs):
+                raise ValueError("buffer is smaller than requested size")
+            bs = bs[:count * n]
         if dt.byteorder == ">":
             raise OutsideModel("big-endian frombuffer")
         out = real_np.empty(len(bs) // n, dtype=object)
